@@ -12,4 +12,5 @@ DumpInit == /\ JsonSerialize(IOEnv.DUMP_FILE, SetToSeq({[v |-> vv, u |-> uu, d |
                                    vv \in [1..MaxD -> 0..MaxCnt], uu \in [1..MaxD -> 0..MaxCnt], d0 \in 1..MaxD}))
             /\ v = [i \in 1..MaxD |-> 0] /\ u = v /\ dd = 1
 GreedyEqDecl == GreedyFeasible(v, u, dd, MaxD) = FeasibleDecl(v, u, dd, MaxD)
+DumpNext == UNCHANGED <<v, u, dd>>        \* the dump run only needs the initial states: nothing is explored after them
 =============================================================================
